@@ -53,7 +53,10 @@ TRUSTED_BASE = [
     "Coq 8.16.1 kernel; vm_compute in Examples, tie lemmas and in the correspondence evaluation; no native_compute",
     "Print Assumptions: Closed under the global context for every C04 theorem",
     "hand-written models coq/model/Graph.v (owned by C09, tied by the shared E2 correspondence) and "
-    "coq/model/Noop.v (dispatch guard, revert_optional, quiescent_success_b, startup_ops, watch_ops, cone)",
+    "coq/model/Noop.v (dispatch guard, required as a closure, revert_optional, end_of_phase_b, quiescent_success_b, "
+    "startup_ops, watch_ops, cone, tcone / cone_op2 and their executable versions)",
+    "C09's invariant inv_core_b and the lemmas of coq/proofs/Graph*.v that NoopBridge.v / NoopCone2.v import "
+    "(closed under the global context as well)",
     "translator/gen_noop.py: AST/SQL fingerprints of the modelled functions, the apply rule of _run_hash_job, "
     "the states excluded by rescan_files, the _HASH_TRANSITIONS table, the list of call sites that make a step PENDING",
     "harness/e2.py + c04_e2.py (transaction bodies re-composed from the same Workflow/Step calls; canonical dump)",
@@ -69,6 +72,10 @@ ASSUMPTIONS = [
     "the end-of-phase predicate end_of_phase_b of the bridge theorem (C04_bridge) agrees with what the real database "
     "says at the end of every drained E2 phase (validated on every run, both verdicts); the bridge itself is proved",
     "E3 commands are simulated; their behaviour is a function of label, declared inputs and environment",
+    "C04_cone_invariant_partial2 holds under the protocol clauses of cone_op2 (requesters RUNNING, completed jobs in "
+    "flight, hash-update paths of a completion in the cone, no idle optional step outside the cone dispatched, no "
+    "orphaned BUILT input adopted): evaluated on every real E2 rebuild trace, not derived from a model of the executor",
+    "the cone is closed under cone membership: an over-approximation of the property's clauses about executed steps",
 ]
 
 SETTINGS = {
